@@ -1,0 +1,79 @@
+//! Verification hooks (compiled only with `--cfg era_consensus_verif`).
+//! Thin public wrappers around crate-private items, used by the model-checking harness in
+//! /verif. No logic of their own.
+#![allow(missing_docs, unreachable_pub, clippy::missing_docs_in_private_items)]
+use std::sync::Arc;
+
+use rand::Rng;
+use zksync_consensus_roles::validator;
+use zksync_protobuf::{build::prost_reflect::MessageDescriptor, ProtoFmt};
+
+use crate::{consensus, gossip, mux, preface, rpc};
+
+// ---------------------------------------------------------------------------------------------
+// Wire types: encode / decode access to message types that are private to this crate.
+
+/// Type-erased access to one wire message type.
+pub struct WireType {
+    pub name: &'static str,
+    pub descriptor: MessageDescriptor,
+    /// `decode::<T>(bytes)`; on success returns `encode(&v)` and whether `decode(encode(v)) == v`.
+    pub decode_encode: Box<dyn Fn(&[u8]) -> anyhow::Result<(Vec<u8>, bool)> + Send + Sync>,
+    /// Decodes both inputs and compares the values.
+    pub equal: Box<dyn Fn(&[u8], &[u8]) -> anyhow::Result<bool> + Send + Sync>,
+    /// Encodings of well-formed sample values.
+    pub samples: Vec<Vec<u8>>,
+}
+
+/// Builds a `WireType` for any `ProtoFmt` type (also used by the harness for public types).
+pub fn wire_type<T: ProtoFmt + PartialEq + 'static>(name: &'static str, samples: Vec<T>) -> WireType {
+    use zksync_protobuf::build::prost_reflect::ReflectMessage as _;
+    WireType {
+        name,
+        descriptor: T::Proto::default().descriptor(),
+        decode_encode: Box::new(|b| {
+            let v: T = zksync_protobuf::decode(b)?;
+            let e = zksync_protobuf::encode(&v);
+            let same = zksync_protobuf::decode::<T>(&e).map(|v2| v2 == v).unwrap_or(false);
+            Ok((e, same))
+        }),
+        equal: Box::new(|a, b| Ok(zksync_protobuf::decode::<T>(a)? == zksync_protobuf::decode::<T>(b)?)),
+        samples: samples.iter().map(zksync_protobuf::encode).collect(),
+    }
+}
+
+/// All wire message types that are private to this crate, with a few well-formed samples each.
+pub fn private_wire_types(rng: &mut impl Rng) -> Vec<WireType> {
+    let addrs = |rng: &mut dyn rand::RngCore, n: usize| {
+        rpc::push_validator_addrs::Req(
+            (0..n)
+                .map(|_| {
+                    let key: validator::SecretKey = rng.gen();
+                    let addr: validator::NetAddress = rng.gen();
+                    Arc::new(key.sign_msg(addr))
+                })
+                .collect(),
+        )
+    };
+    let mut out = vec![];
+    out.extend(gossip::verif::wire_types(rng));
+    out.extend(consensus::verif::wire_types(rng));
+    out.extend(mux::verif::wire_types());
+    out.extend([
+        wire_type("preface::Encryption", vec![preface::Encryption::NoiseNN]),
+        wire_type("preface::Endpoint", vec![preface::Endpoint::ConsensusNet, preface::Endpoint::GossipNet]),
+        wire_type("rpc::ping::Req", vec![rpc::ping::Req(rng.gen()), rpc::ping::Req([0; 32])]),
+        wire_type("rpc::ping::Resp", vec![rpc::ping::Resp(rng.gen())]),
+        wire_type("rpc::consensus::Req", vec![rpc::consensus::Req(rng.gen()), rpc::consensus::Req(rng.gen()), rpc::consensus::Req(rng.gen())]),
+        wire_type("rpc::consensus::Resp", vec![rpc::consensus::Resp]),
+        wire_type("rpc::push_validator_addrs::Req", vec![addrs(rng, 0), addrs(rng, 1), addrs(rng, 3)]),
+        wire_type("rpc::push_tx::Req", vec![rpc::push_tx::Req(rng.gen()), rpc::push_tx::Req(rng.gen())]),
+        wire_type(
+            "rpc::push_block_store_state::Req",
+            vec![rpc::push_block_store_state::Req { state: rng.gen() }, rpc::push_block_store_state::Req { state: rng.gen() }, rpc::push_block_store_state::Req { state: rng.gen() }],
+        ),
+        wire_type("rpc::get_block::Req", vec![rpc::get_block::Req(rng.gen()), rpc::get_block::Req(validator::BlockNumber(u64::MAX))]),
+        wire_type("rpc::get_block::Resp", vec![rpc::get_block::Resp(None), rpc::get_block::Resp(Some(rng.gen())), rpc::get_block::Resp(Some(rng.gen()))]),
+    ]);
+    out
+}
